@@ -5,6 +5,8 @@
 -/
 import ALV.Model.C11Float
 
+set_option linter.unusedSectionVars false
+
 namespace ALV.C11
 variable {α : Type} [Add α] [Mul α] [Sub α] [Neg α] [Div α] [OfNat α 0] [OfNat α 1]
   [DecidableEq α]
@@ -55,6 +57,84 @@ theorem ploopG_congr (sq sq' : α → α) (n : Nat) (d : α) : ∀ (m : Nat) (w 
     · rw [hq] at h
       simp only [] at h ⊢
       rw [ploopG_congr sq sq' n d m w' (fun x hx => h x (by simp [hx]))]
+
+/-! ### the yields depend on the coefficients at delays 1 … m only
+
+No law of arithmetic is used, so this holds for binary64 (`F64`) as it does for a field: whatever
+sits at delay 0 (a leading coefficient `g * (1 / g) = 0.9999999999999999`), beyond delay `m` (the
+residue `k - k * a₀ ≈ 1e-17` of the previous step) or at negative delays (its mirror image) never
+reaches a yielded coefficient, nor does the constant denominator `d`. -/
+
+theorem lget_wtab' (n : Nat) (g : Int → α) (i : Int) :
+    lget n (wtab n g) i = if -(n : Int) ≤ i ∧ i ≤ (n : Int) then g i else 0 := by
+  unfold lget
+  split
+  · rename_i h
+    have hj : (i + (n : Int)).toNat < 2 * n + 1 := by omega
+    unfold wtab
+    rw [List.getD_eq_getElem?_getD, List.getElem?_map, List.getElem?_range hj]
+    simp only [Option.map_some, Option.getD_some]
+    congr 1
+    omega
+  · rfl
+
+theorem lget_w2 (n : Nat) (g : Int → α) (x : α) (i : Int) (hi : i ≠ 0) :
+    lget n (wtab n (fun j => if j = 0 then x else lget n (wtab n g) j)) i
+      = if -(n : Int) ≤ i ∧ i ≤ (n : Int) then g i else 0 := by
+  rw [lget_wtab']
+  by_cases hr : -(n : Int) ≤ i ∧ i ≤ (n : Int)
+  · rw [if_pos hr, if_neg hi, lget_wtab', if_pos hr]
+  · rw [if_neg hr, if_neg hr]
+
+/-- two windows that agree on delays `1 … m` -/
+def InnerEq (n m : Nat) (w w' : List α) : Prop :=
+  ∀ i : Int, 1 ≤ i → i ≤ (m : Int) → lget n w i = lget n w' i
+
+theorem pstepG_inner (sq : α → α) (n : Nat) (d d' : α) (w w' : List α) (m : Nat)
+    (h : InnerEq n (m + 1) w w') :
+    (pstepG sq n d w (m + 1)).1 = (pstepG sq n d' w' (m + 1)).1 ∧
+    ((pstepG sq n d w (m + 1)).2 = none ↔ (pstepG sq n d' w' (m + 1)).2 = none) ∧
+    ∀ v v', (pstepG sq n d w (m + 1)).2 = some v → (pstepG sq n d' w' (m + 1)).2 = some v' →
+      InnerEq n m v v' := by
+  have hk : lget n w ((m + 1 : Nat) : Int) = lget n w' ((m + 1 : Nat) : Int) :=
+    h _ (by omega) (by omega)
+  unfold pstepG
+  simp only [hk]
+  generalize lget n w' ((m + 1 : Nat) : Int) = kk
+  by_cases hz : 1 - sq kk = 0
+  · simp only [hz, if_true]
+    refine ⟨?_, ?_, ?_⟩
+    · trivial
+    · first | trivial | exact Iff.rfl
+    · intro v v' hv; cases hv
+  · simp only [hz, if_false]
+    refine ⟨?_, ?_, ?_⟩
+    · trivial
+    · constructor <;> (intro hh; cases hh)
+    · intro v v' hv hv' i h1 h2
+      simp only [Option.some.injEq] at hv hv'
+      have hi : i ≠ 0 := by omega
+      rw [← hv, ← hv', lget_w2 _ _ _ _ hi, lget_w2 _ _ _ _ hi]
+      by_cases hr : -(n : Int) ≤ i ∧ i ≤ (n : Int)
+      · rw [if_pos hr, if_pos hr]
+        rw [h i h1 (by omega), h (((m + 1 : Nat) : Int) - i) (by omega) (by omega)]
+      · rw [if_neg hr, if_neg hr]
+
+/-- **the yields and the break-down depend on delays `1 … m` only** (and not on `d`) -/
+theorem ploopG_inner (sq : α → α) (n : Nat) (d d' : α) : ∀ (m : Nat) (w w' : List α),
+    InnerEq n m w w' → ploopG sq n d m w = ploopG sq n d' m w'
+  | 0, _, _, _ => rfl
+  | m + 1, w, w', h => by
+    obtain ⟨h1, h2, h3⟩ := pstepG_inner sq n d d' w w' m h
+    unfold ploopG
+    rcases hp : pstepG sq n d w (m + 1) with ⟨k, _ | v⟩ <;>
+      rcases hp' : pstepG sq n d' w' (m + 1) with ⟨k', _ | v'⟩ <;>
+      rw [hp, hp'] at h1 h2 h3 <;> simp only [] at h1 h2 h3
+    · rw [h1]
+    · simp at h2
+    · simp at h2
+    · simp only []
+      rw [h1, ploopG_inner sq n d d' m v v' (h3 v v' rfl rfl)]
 
 section Order
 variable [LT α] [DecidableLT α]
